@@ -113,7 +113,9 @@ func c18GenArchive(t *rapid.T) ([]byte, string) {
 	for i := 0; i < n; i++ {
 		name := rapid.SampledFrom([]string{"a.txt", "dir/file.bin", "README", "x", "日本語.txt", "café/menu", strings.Repeat("long/", 25) + "name.txt", strings.Repeat("n", 99), strings.Repeat("m", 101), "0", " lead", "./rel",
 			// member names that begin like the magic number of another format
-			"BMW/readme.txt", "BM", "ID3v2-tags.md", "II*\x00.tif", "MM\x00*", "GIF89a.txt", "fLaC.notes", "MThd", "FORM", ".snd", "8BPS.psd", "%PDF-notes", "MZ.exe", "OggS", "RIFF", "xar!", "BZh91", "SIMPLE", "wOFF", "Rar!", "070707", "#!AMR", "MAC ", "MPCK", "FLV", "CWS", "icns", "PAR1", "d8:announce", "ftyp", "\x00\x00\x01\x00", "wOF2", "OTTO", "ttcf", "LZIP", "MSCF", "TZif"}).Draw(t, "name")
+			"BMW/readme.txt", "BM", "ID3v2-tags.md", "II*\x00.tif", "MM\x00*", "GIF89a.txt", "fLaC.notes", "MThd", "FORM", ".snd", "8BPS.psd", "%PDF-notes", "MZ.exe", "OggS", "RIFF", "xar!", "BZh91", "SIMPLE", "wOFF", "Rar!", "070707", "#!AMR", "MAC ", "MPCK", "FLV", "CWS", "icns", "PAR1", "d8:announce", "ftyp", "\x00\x00\x01\x00", "wOF2", "OTTO", "ttcf", "LZIP", "MSCF", "TZif",
+			// names with all kinds of extensions: the member name never decides
+			"appliance.ovf", "disk.ova", "box.ovf", "image.vmdk", "backup.tar", "a.tar.gz", "doc.xml", "data.json", "page.html", "lib.so", "x.class", "Dockerfile", "manifest.mf", "layer.tar", "index.docx", "book.epub", "mimetype"}).Draw(t, "name")
 		body := rapid.SliceOfN(rapid.Byte(), 0, 60).Draw(t, "body")
 		if rapid.IntRange(0, 3).Draw(t, "magicbody") == 0 {
 			// member CONTENT that looks like another format; only the header block decides
@@ -151,6 +153,16 @@ func c18GenArchive(t *rapid.T) ([]byte, string) {
 			h.Format = atar.FormatPAX
 		case "gnu":
 			h.Format = atar.FormatGNU
+		}
+		if i == 0 && rapid.IntRange(0, 19).Draw(t, "hugesize") == 0 && h.Typeflag == atar.TypeReg {
+			// a first member of 4-8 GiB: only the header and the first data bytes are ever examined
+			h.Size = rapid.SampledFrom([]int64{1<<32 - 511, 1<<32 - 1, 1 << 32, 1<<32 + 1, 1<<32 + 2048, 1<<33 - 511, 1<<33 - 1, 1 << 31, 1<<31 + 513}).Draw(t, "size")
+			if err := w.WriteHeader(h); err == nil {
+				w.Write(bytes.Repeat([]byte("member data, not NUL. "), 140))
+				w.Flush()
+				return buf.Bytes()[:min(buf.Len(), 3072)], format
+			}
+			h.Size = int64(len(body))
 		}
 		if err := w.WriteHeader(h); err != nil {
 			// this header cannot be encoded in the chosen format: let the writer choose
